@@ -224,6 +224,10 @@ class Infeasible(PathAbort):
     pass
 
 
+class Pruned(PathAbort):
+    """the harness's environment model rules this path out (e.g. a sampler cannot return an index of probability 0)"""
+
+
 class Explorer:
     """DFS over the outcomes of every symbolic bool that Python/numpy forces to a concrete bool."""
 
@@ -321,6 +325,8 @@ class Explorer:
             except BoundHit as e:
                 STATS.bound_hits += 1
                 results.append(("bound", list(self.taken), str(e)))
+            except Pruned as e:
+                results.append(("pruned", list(self.taken), str(e)))
             except Infeasible as e:
                 results.append(("infeasible", list(self.taken), str(e)))
             finally:
